@@ -867,7 +867,8 @@ def _r5(ctx, m):
                 keys.add(x[2][1])
     sets[(FILE, "TemplateLoader._prepare_ode_content (reader)")] = keys
     # reader 2: example.py
-    h = pkg.method("ExampleCommand", "handle")
+    from .c20 import _example_handle
+    h = _example_handle(pkg)            # (a helper the option value is composed in is put back)
     ctx.saw(EXAMPLE, "ExampleCommand.handle")
     k2 = set()
     # by role: every iteration (a `for` statement or a comprehension clause) over <table>.items() where <table> is the example
